@@ -95,6 +95,22 @@ def rules_C07(ctx):
                                     flag.feasible_failure(ctx, "all", {"crate::Uint::<BITS, LIMBS>::overflowing_from_limbs_slice"})]
 
 
+OPERATOR_TRAITS = {
+    "C01": ({"Add", "AddAssign", "Sub", "SubAssign", "Neg", "Sum"}, 16),
+    "C02": ({"Mul", "MulAssign", "Product"}, 8),
+    "C03": ({"Div", "DivAssign", "Rem", "RemAssign"}, 12),
+    "C05": ({"Shl", "ShlAssign", "Shr", "ShrAssign"}, 88),
+    "C06": ({"BitAnd", "BitAndAssign", "BitOr", "BitOrAssign", "BitXor", "BitXorAssign", "Not"}, 20),
+}
+
+
+def operators_for(pid):
+    """The operator surface of one arithmetic property: the core::ops impls forward to the inherent method with the
+    operands in order (R-FACADE restricted to those traits)."""
+    tr, fl = OPERATOR_TRAITS[pid]
+    return lambda ctx: [facade.run(ctx, "all", traits=tr, floor=fl)]
+
+
 def flag_for(files, ops=None):
     return lambda ctx: [flag.flag(ctx, "all", files)] + ([variant.run(ctx, "all", ops), flag.flag_range(ctx, "all", ops)]
                                                         if ops else [])
@@ -103,7 +119,7 @@ def flag_for(files, ops=None):
 def rules_C05(ctx):
     return total_for("C05", ctx) + overflow_for("C05", ctx) + [canon_for(ctx, {"src/bits.rs"}), flag.flag(ctx, "all", {"src/bits.rs"}),
                                     flag.lowlimb(ctx), variant.run(ctx, "all", ["shl", "shr"]),
-                                    flag.flag_range(ctx, "all", ["shl", "shr"])]
+                                    flag.flag_range(ctx, "all", ["shl", "shr"])] + operators_for("C05")(ctx)
 
 
 def rules_C09(ctx):
@@ -136,7 +152,7 @@ def rules_total_only(pid, own_only=False):
 
 
 def rules_C03(ctx):
-    return total_for("C03", ctx) + overflow_for("C03", ctx) + [unimpl.run(ctx, "all"), guard.zero_divisor(ctx)]
+    return total_for("C03", ctx) + overflow_for("C03", ctx) + [unimpl.run(ctx, "all"), guard.zero_divisor(ctx)] + operators_for("C03")(ctx)
 
 
 def rules_C16(ctx):
@@ -153,7 +169,7 @@ def rules_C17(ctx):
 
 
 def rules_C08(ctx):
-    return total_for("C08", ctx) + overflow_for("C08", ctx) + [canon_for(ctx, {"src/bytes.rs"}), guard.buffers(ctx),
+    return total_for("C08", ctx) + overflow_for("C08", ctx) + [canon_for(ctx, {"src/bytes.rs"}), guard.buffers(ctx), guard.slice_length(ctx),
                                     flag.feasible_failure(ctx, "all", {"crate::bytes::<impl crate::Uint<BITS, LIMBS>>::try_from_be_slice",
                                                                        "crate::bytes::<impl crate::Uint<BITS, LIMBS>>::try_from_le_slice"})]
 
@@ -183,7 +199,7 @@ PROPS = {
              "checked (debug) builds no add/sub/neg entry reaches an undischarged arithmetic-overflow assertion (R-TOTAL/"
              "overflow-checks)",
              "that the limb-wise carry chain computes the sum (e.g. seeded C01-carrying_add-compare is missed)",
-             rules_with_canon("C01", {"src/add.rs"}, flag_for({"src/add.rs"}, ["add", "sub", "neg"])),
+             rules_with_canon("C01", {"src/add.rs"}, lambda ctx: flag_for({"src/add.rs"}, ["add", "sub", "neg"])(ctx) + operators_for("C01")(ctx)),
              ["that the limb-wise carry chain computes the sum/difference", "abs_diff's value"]),
     "C02": P("C02", "(a) no undischarged panic site under any mul form, inv_ring, Product (R-TOTAL; widening_mul's two "
              "assert_eq! are documented); (b) results canonical on every path, incl. inv_ring for single-limb widths "
@@ -193,7 +209,7 @@ PROPS = {
              "inside the multiplication kernels (addmul, addmul_n, addmul_nx1, cmp) are in scope and all discharged, and no "
              "entry reaches an undischarged overflow assertion in overflow-checked builds (R-TOTAL/overflow-checks)",
              "products, addmul's truncation bookkeeping (seeded C02-addmul-truncated-row-flag is missed), Hensel lifting",
-             rules_with_canon("C02", {"src/mul.rs"}, flag_for({"src/mul.rs", "src/algorithms/mul.rs"}, ["mul"])),
+             rules_with_canon("C02", {"src/mul.rs"}, lambda ctx: flag_for({"src/mul.rs", "src/algorithms/mul.rs"}, ["mul"])(ctx) + operators_for("C02")(ctx)),
              ["products", "trimming / truncation bookkeeping in addmul", "Hensel lifting"]),
     "C03": P("C03", "(a) checked_div/checked_rem/checked_next_multiple_of and their num-traits facades reach the 'Divisor "
              "is zero' site only behind a dominating non-zero test of that call's divisor (R-TOTAL, D-zero predicate "
@@ -236,7 +252,7 @@ PROPS = {
              "configuration (R-GUARD/byte); (d) overflow assertions of the counting functions in overflow-checked builds: "
              "discharged or one of 7 reviewed arithmetic rows (R-TOTAL/overflow-checks)", "every counting function's value, "
              "most_significant_bits",
-             rules_with_canon("C06", {"src/bits.rs"}, lambda ctx: [guard.byte_panics(ctx)]),
+             rules_with_canon("C06", {"src/bits.rs"}, lambda ctx: [guard.byte_panics(ctx)] + operators_for("C06")(ctx)),
              ["values of the counting functions", "most_significant_bits", "reverse_bits"]),
     "C07": P("C07", "(a) every TryFrom/wrapping/saturating conversion in either direction and the *_from_limbs_slice "
              "constructors reach no undischarged panic site: each asserting from_limbs is behind a top-limb bound "
@@ -254,7 +270,8 @@ PROPS = {
     "C08": P("C08", "(a) try_from_{be,le}_slice, checked_copy_* and the slice/vec byte forms reach no undischarged panic "
              "site in any configuration, the asserting from_limbs only behind a top-limb check (R-TOTAL); (b) byte-form "
              "writers keep values canonical (R-CANON); (c) checked_copy_* touch the buffer only behind the length guard "
-             "(R-GUARD/buffers); (d) the slice parsers can fail in every configuration (R-FLAG/feasible-failure); (e) in a "
+             "(R-GUARD/buffers), and the slice parsers build a non-None result only where the slice is at most BYTES long "
+             "(R-GUARD/slice-length, interval of the slice length); (d) the slice parsers can fail in every configuration (R-FLAG/feasible-failure); (e) in a "
              "build with arithmetic overflow checks (debug) no byte-form entry reaches an undischarged overflow assertion "
              "(R-TOTAL/overflow-checks on the -C overflow-checks=on MIR, 5 reviewed rows)",
              "digit order inside the loops, trimmed lengths (seeded C08-trimmed-length-arithmetic is reported only "
